@@ -14,7 +14,7 @@ ID = "C09"
 TITLE = "The lattice stays well-formed under any sequence of operations"
 MANIFEST = {
     "text": "Breadth-first search over operation histories of depth <= 3 (thorough 4) on one live matcher from the alphabet {M(k): fresh "
-            "match of the first k observations (first operation; thorough: anywhere), X(k): match(first k, expand=True) for k >= current "
+            "match of the first k observations (first operation, and later for a SHORTER prefix; thorough: anywhere), X(k): match(first k, expand=True) for k >= current "
             "length, W(w): increase_max_lattice_width for w above the current width, C: continue_with_distance() with default and "
             "explicit radius}, on 57 graphs with 3 nodes, 26 named 4-12 node graphs, four traces (two without, two with an "
             "outlier so that early stops and the jump logic are reachable), 3 families x non-emitting on/off x initial width {None,1} x "
@@ -172,7 +172,7 @@ def run_case(case):
                 res["nt"] += 1
             if state is None or len(hist) >= depth:
                 continue
-            for op in hs.enabled_ops(state, T, widths=(2, 3), allow_continue=True, allow_fresh=(case.get("tier") == "thorough")):
+            for op in hs.enabled_ops(state, T, widths=(2, 3), allow_continue=True, allow_fresh=(True if case.get("tier") == "thorough" else "shorter")):
                 frontier.append((hist + [op], hs.step_state(state, op)))
         res["st"] += len(seen)
     res["out"] = sorted(outs)[:3000]
